@@ -208,27 +208,34 @@ def r3(ctx, rep):
     # (locals inlined: `supports_frame` and `default_frame` may be named anything or not at all)
     import alpha
     A = alpha.Inliner(f)
+    for _ in range(3):       # the field value itself may have been given a name first
+        if wf is not None and wf.get("k") == "path" and "::" not in wf["p"]:
+            i_ = A._init_of(wf, wf["p"])
+            if i_ is None:
+                break
+            wf = i_
+    # truth table of the condition over (template has a frame, frame equals the default): any spelling of `has && !equal`
+    import boolfn
     ok = False
     sf_ok = False
     if wf is not None and wf.get("k") == "if":
-        c = wf["c"]
-        while c.get("k") == "paren":
-            c = c["e"]
-        if c.get("k") == "bin" and c["op"] == "&&":
-            left, right = c["lhs"], c["rhs"]
-            # left conjunct: matches!(<expr>, ..window_frame: true..)
-            l = left
-            for _ in range(4):
-                if l.get("k") == "path" and "::" not in l["p"]:
-                    i = A._init_of(l, l["p"])
-                    if i is None:
-                        break
-                    l = i
-                else:
-                    break
-            sf_ok = l.get("k") == "macro" and l.get("n") == "matches" and "window_frame: true" in show_pat(l["pat"])
-            rt = A.show(right).replace(" ", "")
-            ok = sf_ok and rt.startswith("(window.frame!=") and "try_into_window_frame(window.frame)" in show_stmts(wf["t"]) and show(tail_expr(wf["e"])) == "None"
+        rows = []
+        try:
+            for has in (True, False):
+                for equal in (True, False):
+                    def atom(t, has=has, equal=equal):
+                        if t == "expr":
+                            return "ExprOrSource::Source" if has else "ExprOrSource::Expr"
+                        if t == "window.frame":
+                            return "F::A"
+                        if t == "default_frame":
+                            return "F::A" if equal else "F::B"
+                        return None
+                    rows.append(boolfn.ev(wf["c"], atom, A) == (has and not equal))
+            sf_ok = any(x.get("k") == "macro" and x.get("n") == "matches" and "window_frame: true" in show_pat(x["pat"]) for x in walk_inlined(A, wf["c"]))
+            ok = all(rows) and sf_ok and "try_into_window_frame(window.frame)" in show_stmts(wf["t"]) and show(tail_expr(wf["e"])) == "None"
+        except boolfn.Unknown:
+            ok = False
     rep.check(ok, "elision", "the frame may be omitted only when the function has no frame or the frame equals the default", file=f["file"], line=f["l"], fn=f["path"])
     rep.check(sf_ok, "supports_frame", "the first conjunct of the elision test must be the template's window_frame annotation (`matches!(expr, ..window_frame: true..)`)", file=f["file"], line=f["l"], fn=f["path"])
     # sibling: create_filter_by_row_number builds the same pair
@@ -248,6 +255,16 @@ def r3(ctx, rep):
     d = [x for x in syn.fns if x["crate"] == "prqlc" and x.get("self_short") == "WindowFrame" and x["name"] == "default"]
     ok = len(d) == 1 and "WindowKind::Rows" in show_stmts(d[0]["body"], maxdepth=8) and "Range::unbounded()" in show_stmts(d[0]["body"], maxdepth=8)
     rep.check(ok, "prql-default", "no window = whole partition: WindowFrame::default() must be ROWS unbounded", file=d[0]["file"] if d else None, line=d[0]["l"] if d else None)
+
+
+def walk_inlined(A, e, depth=0):
+    """nodes of e, following locals to their initialisers"""
+    for x in walk(e):
+        yield x
+        if x.get("k") == "path" and "::" not in x["p"] and depth < 4:
+            i = A._init_of(x, x["p"])
+            if i is not None:
+                yield from walk_inlined(A, i, depth + 1)
 
 
 def show_pat(p):
@@ -379,8 +396,11 @@ def r5(ctx, rep):
     ws = None
     for n in walk(tw["body"]):
         if n.get("k") == "struct" and last_seg(n["p"]) == "WindowSpec":
-            ws = {a: show(b, maxdepth=8) for a, b in n["f"]}
-    ok = ws is not None and ws.get("partition_by") == "try_into_exprs(window.partition, ctx, span)?" and ws.get("order_by") == "order_by"
+            Aw = __import__("alpha").Inliner(tw, max_inline=1)
+            ws = {a: Aw.show(b) for a, b in n["f"]}
+    # partition from window.partition; the order list is the (mutable, possibly defaulted) local built from window.sort
+    ok = ws is not None and ws.get("partition_by") == "try_into_exprs(window.partition, ctx, span)?" and ws.get("order_by", "").isidentifier() \
+        and any(x.get("k") == "local" and show(x["pat"]).replace("mut ", "") == ws["order_by"] and "window.sort" in show(x.get("init"), maxdepth=10) for x in walk(tw["body"]))
     fm = [lit_val(m["a"][0]) for m in macros(tw["body"], "format") if m.get("a")]
     rep.check(ok and "{expr} OVER ({window})" in fm, "emit:spec", f"OVER (..) must be built from partition, order and frame; found {ws} / {fm}", file=tw["file"], line=tw["l"], fn=tw["path"])
 
